@@ -833,7 +833,10 @@ func (r *runner) replayOnly(tape string) int {
 			if e.Name == tf.Entry {
 				// package name: read from the first harness file
 				pkgName := ""
-				for f := range u.Files {
+				for f, d := range u.Files {
+					if filepath.Clean(r.destDir(d)) != filepath.Clean(filepath.Join(r.repo, strings.TrimPrefix(u.Package, "./"))) {
+						continue
+					}
 					src, _ := os.ReadFile(filepath.Join(r.hdir, f))
 					m := regexp.MustCompile(`(?m)^package\s+(\w+)`).FindSubmatch(src)
 					if m != nil {
